@@ -21,11 +21,13 @@ import (
 
 	dxclient "github.com/hyperledger/aries-framework-go/pkg/client/didexchange"
 	lcclient "github.com/hyperledger/aries-framework-go/pkg/client/legacyconnection"
+	medclient "github.com/hyperledger/aries-framework-go/pkg/client/mediator"
 	oobclient "github.com/hyperledger/aries-framework-go/pkg/client/outofband"
 	arieslog "github.com/hyperledger/aries-framework-go/pkg/common/log"
 	"github.com/hyperledger/aries-framework-go/pkg/common/model"
 	"github.com/hyperledger/aries-framework-go/pkg/didcomm/common/service"
 	"github.com/hyperledger/aries-framework-go/pkg/didcomm/protocol/decorator"
+	mediatorsvc "github.com/hyperledger/aries-framework-go/pkg/didcomm/protocol/mediator"
 	"github.com/hyperledger/aries-framework-go/pkg/doc/did"
 	"github.com/hyperledger/aries-framework-go/pkg/kms"
 	"github.com/hyperledger/aries-framework-go/pkg/vdr/fingerprint"
@@ -72,8 +74,12 @@ type Spec struct {
 	// again over their persisted stores between the honest part and the attacks; "random" = additionally an honest
 	// agent is restarted between two steps of the schedule with probability 1/6.
 	Restart string `json:"restart,omitempty"`
-	Seed    uint64 `json:"seed"`
-	Note    string `json:"note,omitempty"`
+	// Mediated: alice and bob sit behind a mediator (a fourth real framework running the route coordination service):
+	// their invitations and DID documents carry the mediator's endpoint and routing keys, every message between them is
+	// wrapped in a forward message and passed on by the mediator.
+	Mediated bool   `json:"mediated,omitempty"`
+	Seed     uint64 `json:"seed"`
+	Note     string `json:"note,omitempty"`
 }
 
 type exchRun struct {
@@ -337,6 +343,126 @@ func (r *runner) deliver(p *Packet) {
 	r.post(dst, pre, func(c int, my string) string { return fmt.Sprintf("IRecv %s %d %s", m, c, my) }, p.HandlerErr != nil, docID)
 }
 
+// setupMediation starts the mediator and registers alice and bob with it (over connections of their own with it).
+func (r *runner) setupMediation() error {
+	w := r.w
+
+	R, err := NewAgent(w.net, "router", r.spec.Cfg)
+	if err != nil {
+		return err
+	}
+
+	w.R = R
+
+	medR, err := medclient.New(R.ctx)
+	if err != nil {
+		return err
+	}
+
+	ch := make(chan service.DIDCommAction, 16)
+	if err := medR.RegisterActionEvent(ch); err != nil {
+		return err
+	}
+
+	go service.AutoExecuteActionEvent(ch)
+
+	w.net.SetHold(false)
+
+	for _, x := range []*Agent{w.A, w.B} {
+		inv, err := R.dx.CreateInvitation("router")
+		if err != nil {
+			return err
+		}
+
+		c, err := x.dx.HandleInvitation(inv)
+		if err != nil {
+			return err
+		}
+
+		if !x.WaitState(c, "completed", settle) {
+			w.setInconclusive("no connection with the mediator within the deadline")
+
+			return nil
+		}
+
+		th := x.Record(c).ThreadID
+
+		if !R.waitFor(settle, func() bool {
+			for _, e := range R.states {
+				if e.Post && e.Thid == th && e.State == "completed" {
+					return true
+				}
+			}
+
+			return false
+		}) {
+			w.setInconclusive("the mediator did not complete its connection within the deadline")
+
+			return nil
+		}
+
+		mc, err := medclient.New(x.ctx)
+		if err != nil {
+			return err
+		}
+
+		if err := mc.Register(c); err != nil {
+			return fmt.Errorf("register with the mediator: %w", err)
+		}
+
+		x.mu.Lock()
+		x.routerConns = []string{c}
+		x.mu.Unlock()
+	}
+
+	w.net.pending.Wait()
+
+	svc, err := R.ctx.Service(mediatorsvc.Coordination)
+	if err != nil {
+		return err
+	}
+
+	fwd, ok := svc.(interface {
+		VerifHandleForward(msg service.DIDCommMsg) error
+	})
+	if !ok {
+		return fmt.Errorf("mediator service without the synchronous forward entry")
+	}
+
+	w.net.mu.Lock()
+	w.net.hold = true
+	w.net.router = R.Endpoint
+	w.net.routerFwd = func(p *Packet) bool {
+		env, err := R.inbound.prov.Packager().UnpackMessage(p.Data)
+		if err != nil {
+			return false
+		}
+
+		m, err := service.ParseDIDCommMsgMap(env.Message)
+		if err != nil || (m.Type() != service.ForwardMsgType && m.Type() != service.ForwardMsgTypeV2) {
+			return false
+		}
+
+		p.HandlerErr = fwd.VerifHandleForward(m)
+
+		return true
+	}
+	w.net.mu.Unlock()
+
+	return nil
+}
+
+func (a *Agent) routerConn() string {
+	a.mu.Lock()
+	defer a.mu.Unlock()
+
+	if len(a.routerConns) == 0 {
+		return ""
+	}
+
+	return a.routerConns[0]
+}
+
 // restart stops an honest agent and starts it again over its persisted stores (an input of the agent's history).
 func (r *runner) restart(a *Agent) {
 	pre := r.pre(a)
@@ -354,6 +480,12 @@ func (r *runner) restart(a *Agent) {
 // drain delivers queued packets in a seeded order until the network is quiet.
 func (r *runner) drain(local []func()) {
 	for {
+		if r.spec.Mediated && !r.w.net.WaitRouter(settle) {
+			r.w.setInconclusive("the mediator did not come to rest within the deadline")
+
+			return
+		}
+
 		n := r.w.net.QueueLen()
 		if n == 0 && len(local) == 0 {
 			return
@@ -420,7 +552,12 @@ func (r *runner) setup(e *exchRun) error {
 
 	switch e.Style {
 	case "dx":
-		inv, err := x.dx.CreateInvitation(e.Inviter)
+		var iopts []dxclient.InvOpt
+		if rc := x.routerConn(); rc != "" {
+			iopts = append(iopts, dxclient.WithRouterConnectionID(rc))
+		}
+
+		inv, err := x.dx.CreateInvitation(e.Inviter, iopts...)
 		if err != nil {
 			return err
 		}
@@ -432,13 +569,24 @@ func (r *runner) setup(e *exchRun) error {
 		}, false, "")
 		e.invKey, e.invEP = inv.RecipientKeys[0], inv.ServiceEndpoint
 	case "oob":
-		inv, err := x.oob.CreateInvitation(nil, oobclient.WithLabel(e.Inviter))
+		oopts := []oobclient.MessageOption{oobclient.WithLabel(e.Inviter)}
+		if rc := x.routerConn(); rc != "" {
+			oopts = append(oopts, oobclient.WithRouterConnections(rc))
+		}
+
+		inv, err := x.oob.CreateInvitation(nil, oopts...)
 		if err != nil {
 			return err
 		}
 
 		e.invID, e.proto = inv.ID, "DX"
-		e.accept = func() (string, error) { return y.oob.AcceptInvitation(inv, e.Invitee) }
+		e.accept = func() (string, error) {
+			if rc := y.routerConn(); rc != "" {
+				return y.oob.AcceptInvitation(inv, e.Invitee, oobclient.WithRouterConnections(rc))
+			}
+
+			return y.oob.AcceptInvitation(inv, e.Invitee)
+		}
 
 		if svc, ok := inv.Services[0].(*did.Service); ok && len(svc.RecipientKeys) > 0 {
 			e.invKey = svc.RecipientKeys[0]
@@ -492,7 +640,12 @@ func (r *runner) setup(e *exchRun) error {
 			return fmt.Sprintf("ICreateInv %d %d", r.w.inv(e.invID), r.w.key(e.invKey))
 		}, false, "")
 	case "legacy", "legacy-didkey":
-		inv, err := x.lc.CreateInvitation(e.Inviter)
+		var lopts []lcclient.InvOpt
+		if rc := x.routerConn(); rc != "" {
+			lopts = append(lopts, lcclient.WithRouterConnectionID(rc))
+		}
+
+		inv, err := x.lc.CreateInvitation(e.Inviter, lopts...)
 		if err != nil {
 			return err
 		}
@@ -738,6 +891,17 @@ func runCase(spec *Spec, kind string, idx int) *hx.Record {
 
 	r := &runner{w: w, rng: hx.NewRng(spec.Seed), res: res, spec: spec}
 
+	if spec.Mediated {
+		w.noCoq("mediated exchange: routing and forwarding are outside the model, the direct oracle decides")
+
+		if err := r.setupMediation(); err != nil {
+			res.obs["setup-error"] = err.Error()
+			rec.Trivial, rec.Class, rec.Observed = true, "setup-error", res.obs
+
+			return rec
+		}
+	}
+
 	if spec.Mode == "sync" {
 		w.noCoq("synchronous delivery: the agents' steps overlap, the direct oracle decides")
 		w.net.mu.Lock()
@@ -864,6 +1028,13 @@ func runCase(spec *Spec, kind string, idx int) *hx.Record {
 				}
 			}
 
+			if spec.Mediated && !(yr.State == "completed" && xs == "completed") {
+				// the mediator's client gives up on a keylist update after 10 s of its own: not a verdict
+				w.setInconclusive("mediated exchange at rest without completion (" + yr.State + "/" + xs + ")")
+
+				continue
+			}
+
 			if (yr.State == "completed") != (xs == "completed") {
 				res.failf("mutual-half-open", "honest %s exchange at rest: %s's record is %s, %s's record is %s", e.Style, y.Name, yr.State, x.Name, xs)
 			} else if yr.State != "completed" {
@@ -892,6 +1063,10 @@ func runCase(spec *Spec, kind string, idx int) *hx.Record {
 	}
 
 	res.obs["completed"], res.obs["states"], res.obs["packets"] = completed, states, len(w.net.Log)
+
+	if spec.Mediated && len(r.exs) > 0 && r.exs[0].done {
+		res.obs["alice-resolves-bob-to"] = r.exs[0].resX
+	}
 	if !w.coq {
 		res.obs["direct-oracle-only"] = w.coqWhy
 	}
@@ -1863,6 +2038,30 @@ func main() {
 
 				add("forge", s)
 			}
+		}
+	}
+
+	// both parties behind a mediator: honest matrix, then the routing-key / endpoint / key edits and the other re-pointing attacks
+	for _, st := range []string{"dx", "oob", "legacy"} {
+		for k := 1; k <= 2; k++ {
+			s := &Spec{Cfg: cfgs[0], Seed: rng.U64(), Mediated: true}
+			for j := 0; j < k; j++ {
+				e := Exch{Inviter: "alice", Invitee: "bob", Style: st}
+				if j == 1 {
+					e = Exch{Inviter: "bob", Invitee: "alice", Style: st}
+				}
+
+				s.Exch = append(s.Exch, e)
+			}
+
+			add("mediated", s)
+		}
+
+		for _, ak := range []string{"req-repoint", "req-repoint-keys", "req-repoint-endpoint", "req-repoint-routing", "req-keysteal", "init-repoint", "rotate-takeover"} {
+			target := []string{"alice", "bob"}[rng.Intn(2)]
+			add("mediated", &Spec{Cfg: cfgs[0], Seed: rng.U64(), Mediated: true,
+				Exch:    []Exch{{Inviter: "alice", Invitee: "bob", Style: st}, withM(target)},
+				Attacks: []Attack{{Kind: ak, Target: target}}})
 		}
 	}
 
